@@ -250,7 +250,48 @@ class VariableProjection(Contract):
                             wit = {"cond": float(cond), "kind": kind, "residual_norm": float(np.linalg.norm(res)), "optimal_norm": float(ref_norm)}
                     out.append({"name": f"bounded_{fname}", "ok": ok, "case": f"cond~{cond_target:g},{kind}", "function": fname, "witness": wit, "detail": "run-time evaluation of the C01 contract on ill-conditioned kinetic matrices (bounded stand-in)"})
                 A = A0
+        # memory layout and dtype of the inputs as the providers may hand them over (data files hold float32 / integer
+        # counts; matrices come as Fortran-ordered arrays, transposed or column-sliced views, read-only arrays): the
+        # result is the least-squares solution for the *values* of the inputs, and the inputs are left as they were
+        tt = np.linspace(0, 5, 30)
+        base = np.exp(-np.outer(tt, [1.0, 0.35, 0.05]))
+        wide = np.exp(-np.outer(tt, [1.0, 0.7, 0.35, 0.2, 0.05, 0.01]))
+        layouts = {
+            "c_contiguous": lambda: np.ascontiguousarray(base),
+            "fortran": lambda: np.asfortranarray(base),
+            "transposed_view": lambda: np.ascontiguousarray(base.T).T,
+            "column_slice": lambda: wide[:, ::2],
+            "read_only": lambda: _read_only(base.copy()),
+        }
+        truth = np.array([2.0, 1.0, 3.0])
+        for lname, make in layouts.items():
+            for dname, cast in (("float64", lambda v: v), ("float32", lambda v: v.astype(np.float32)), ("int64", lambda v: np.rint(v * 100).astype(np.int64)), ("int32", lambda v: np.rint(v * 100).astype(np.int32)), ("strided_view", lambda v: np.repeat(v, 2)[::2]), ("read_only", lambda v: _read_only(v.copy()))):
+                for fname, fn in (("variable_projection", residual_variable_projection), ("nnls", residual_nnls)):
+                    M = make()
+                    d = cast(M @ truth + 0.05 * np.sin(7 * tt))
+                    M_before, d_before = np.array(M, dtype=float, copy=True), np.array(d, copy=True)
+                    Mf, df = M_before, np.array(d, dtype=float)
+                    try:
+                        clp, res = fn(M, d)
+                        clp, res = np.asarray(clp, dtype=float), np.asarray(res, dtype=float)
+                        scale = np.abs(df).max()
+                        ok = bool(np.abs(res - (df - Mf @ clp)).max() <= 1e-9 * scale)
+                        if fname == "variable_projection":
+                            ok = ok and bool(np.abs(Mf.T @ res).max() <= 1e-8 * scale * np.linalg.norm(Mf, 2))
+                        else:
+                            g = Mf.T @ res
+                            ok = ok and bool((clp >= 0).all()) and bool((g[clp == 0] <= 1e-6 * (1 + np.abs(g).max())).all()) and bool(np.abs(g[clp > 0]).max(initial=0.0) <= 1e-6 * scale * np.linalg.norm(Mf, 2))
+                        ok = ok and np.array_equal(np.asarray(M, dtype=float), M_before) and np.array_equal(d, d_before) and d.dtype == d_before.dtype
+                        wit = None if ok else {"matrix_layout": lname, "data": dname, "clp": clp.tolist(), "least_squares_clp": np.linalg.lstsq(Mf, df, rcond=None)[0].tolist()}
+                    except Exception as e:
+                        ok, wit = False, {"matrix_layout": lname, "data": dname, "exception": repr(e)}
+                    out.append({"name": f"bounded_{fname}_layout_and_dtype", "ok": ok, "case": f"matrix={lname},data={dname}", "function": fname, "witness": wit, "detail": "run-time evaluation of the C01 contract on inputs of other memory layouts and dtypes (bounded stand-in)"})
         return out
+
+
+def _read_only(a):
+    a.setflags(write=False)
+    return a
 
 
 def _vp_sweep(self, tier, seed):
